@@ -16,7 +16,9 @@ Two clauses have a structural reading.
  R4  expression values are not defaulted by truthiness: in the inliner a bound /
      index taken from a declaration is never written ``<expr> or IntLiteral(k)``
      (``IntLiteral(0)`` is falsy, so a declared lower bound 0 would silently
-     become k and every remapped subscript shifts).
+     become k and every remapped subscript shifts), and no bound of a range
+     (``.lower`` / ``.upper`` / ``.start`` / ``.stop``) is tested for truth: an
+     explicit bound 0 must not be taken for an absent one.
  R5  one notion of "the result variable": every filter of
      ``inline_function_calls`` that excludes the function result by comparing a
      variable's name with ``callee.<attr>`` uses the same attribute,
@@ -100,7 +102,7 @@ def run(ctx):
      ctx.violation('R3', 'inline_subroutine_calls:call_map', f.where, 'the call->body mapping is not keyed by exactly the calls to inline'))
 
     # ---- R4
-    ctx.rule('R4', 'loki/transformations/inline: no `<expression> or (sym.)IntLiteral(...)` / `or (sym.)Literal(...)` defaulting')
+    ctx.rule('R4', 'loki/transformations/inline: no `<expression> or (sym.)IntLiteral(...)` defaulting and no truth test of a range bound (.lower/.upper/.start/.stop)')
     ctx.rule('R5', 'inline_function_calls: all name comparisons against callee.<attr> that exclude the result variable use result_name')
     nfun = 0
     hits = []
@@ -111,6 +113,9 @@ def run(ctx):
                 if isinstance(b_, ast.BoolOp) and isinstance(b_.op, ast.Or) and isinstance(b_.values[-1], ast.Call) \
                         and X.call_name_of(b_.values[-1]) in ('IntLiteral', 'Literal', 'FloatLiteral', 'LogicLiteral'):
                     hits.append((mod, fn_, b_))
+            for o_, t_ in X.truthy_bound_uses(fn_):
+                if not any(h[2] is t_ for h in hits):
+                    hits.append((mod, fn_, t_))
     ctx.floor('R4', 'functions of the inline package', nfun, 20)
     if hits:
         for mod, fn_, b_ in hits:
@@ -145,6 +150,10 @@ def run(ctx):
 
 MUTANTS = [
     Mutant('lbound-defaulted-by-truthiness', PR, "                decl_lbound = decl_lbounds[index][0]\n", "                decl_lbound = decl_lbounds[index][0] or sym.IntLiteral(1)\n",
+           expect=('R4', 'truthiness-default')),
+    Mutant('section-bound-defaulted-by-truthiness', PR, "                    _lower = dim.lower if dim.lower is not None else decl_lbounds[index][1]\n",
+           "                    _lower = dim.lower or decl_lbounds[index][1]\n", expect=('R4', 'truthiness-default')),
+    Mutant('passed-section-tested-by-truthiness', PR, "(lower := val.dimensions[index].lower) is not None:", "(lower := val.dimensions[index].lower):",
            expect=('R4', 'truthiness-default')),
     Mutant('result-excluded-by-function-name', 'loki/transformations/inline/functions.py', "        if v.name.lower() != callee.result_name.lower()\n", "        if v.name.lower() != callee.name.lower()\n",
            expect=('R5', 'result-variable-attr')),
